@@ -127,7 +127,12 @@ impl Validator {
                         while let Some(s) =
                             validator.find_anchored_rev(mem, start, mat.end, match_type)
                         {
-                            matches.push(s..end);
+                            // The two validators can follow different branches of an alternation:
+                            // the start found by the reverse one can then be after the end found
+                            // by the forward one, which is not a match (and not a valid range).
+                            if s <= end {
+                                matches.push(s..end);
+                            }
                             start = s + 1;
                             if start > mat.end {
                                 break;
